@@ -101,8 +101,8 @@ class BindSim:
         return ('plans drawn from VERIF_SEED: pool of 2-5 datasets (valid per convention, near-misses with one distinguishing '
                 'attribute/variable removed, datasets carrying markers for synthetic conventions at planned specificities) x 1-3 '
                 'lifetimes each with its own entry-point environment (permuted order; entries whose load raises ImportError / '
-                'AttributeError, yield a non-class / non-Convention class, or duplicate) x 3-12 ops from {register, detect, access, '
-                'construct+bind, bind again, copy (5 ways), derive, mutate in place}. Checked op by op against a reference model. '
+                'AttributeError, yield a non-class / non-Convention class, duplicate, share a name with another class, or raise from check_dataset) x 3-12 ops from {register, detect, access, '
+                'construct+bind (also with constructor arguments / non-default coordinates), bind again, copy (5 ways), derive, mutate in place}. Checked op by op against a reference model and, for detection, against the same code on a registry without history. '
                 'Non-trivial = at least one access/bind and one detect executed. Distinct = distinct signature (dataset kinds, '
                 'per-lifetime environment fault kinds, op-kind sequence).')
 
